@@ -30,7 +30,11 @@ def splits2(m, full):
                 b = tuple(i for i in idx if i not in a)
                 yield (a, b)
     else:
-        for c in range(1, m):
+        cuts = list(range(1, m))
+        if m > 12:
+            cuts = sorted({max(1, min(m - 1, round(m * q / 10)))
+                           for q in range(1, 10)} | {1, m - 1})
+        for c in cuts:
             yield (tuple(idx[:c]), tuple(idx[c:]))
             yield (tuple(idx[c:]), tuple(idx[:c]))
 
@@ -44,8 +48,15 @@ def splits3(m, full):
             yield tuple(tuple(i for i in idx if labels[i] == k)
                         for k in range(3))
     else:
-        for c1 in range(1, m - 1):
-            for c2 in range(c1 + 1, m):
+        # contiguous 3-splits; above 8 jobs only cut points on a grid of
+        # five positions (a 50-job corpus definition has 1176 otherwise)
+        cuts = list(range(1, m))
+        if m > 8:
+            cuts = sorted({max(1, min(m - 1, round(m * q / 6)))
+                           for q in range(1, 6)})
+        for a in range(len(cuts)):
+            for b in range(a + 1, len(cuts)):
+                c1, c2 = cuts[a], cuts[b]
                 yield (tuple(idx[:c1]), tuple(idx[c1:c2]), tuple(idx[c2:]))
 
 
